@@ -28,18 +28,21 @@ package service
 // MarkExecuted every receipt's hash is in `executed` - the records are collected in a write batch that is
 // flushed when it exceeds 100 KiB and at the end, and nothing put into it may be dropped.
 
-//@ ghost recv (Array Int (Array {common.Hash} Bool))
+//@ ghost recv (Array Int (Array Bytes Bool))
 
 //@ func simpleContainer.contains
 //@   option trusted
 //@   requires c != nil
-//@   ensures result == @select(@select(ghost(recv), ref(c)), key)
+//@   ensures result == @select(@select(ghost(recv), ref(c)), bytes(key))
 //@   modifies nothing
 
 //@ func simpleContainer.push
 //@   option trusted
 //@   requires c != nil && tx != nil
-//@   ensures [others] forall h common.Hash :: h != tx.Hash ==> @select(@select(ghost(recv), ref(c)), h) == @select(@select(old(ghost(recv)), ref(c)), h)
+//@   # (the container drops the transaction silently when it is full: capacity is assumed here)
+//@   ensures [pushed] @select(@select(ghost(recv), ref(c)), bytes(tx.Hash))
+//@   ensures [others] forall k Bytes :: k != bytes(tx.Hash) ==> @select(@select(ghost(recv), ref(c)), k) == @select(@select(old(ghost(recv)), ref(c)), k)
+//@   ensures [same]   forall d Int :: d != ref(c) ==> @select(ghost(recv), d) == @select(old(ghost(recv)), d)
 //@   modifies ghost(recv)
 
 //@ func simpleContainer.remove
@@ -54,15 +57,17 @@ package service
 //@ func TxPool.isTransactionExisted
 //@   property C17
 //@   requires pool != nil && pool.received != nil && typeid(pool.executed) != 0
-//@   ensures [known] result == (@select(@select(ghost(recv), ref(pool.received)), hash) || @select(@select(ghost(kvhas), ref(pool.executed)), bytes(hash)))
+//@   ensures [known] result == (@select(@select(ghost(recv), ref(pool.received)), bytes(hash)) || @select(@select(ghost(kvhas), ref(pool.executed)), bytes(hash)))
 //@   modifies nothing
 
 //@ func TxPool.add
 //@   property C17
 //@   requires pool != nil && pool.received != nil && typeid(pool.executed) != 0 && txPoolLogger != nil
-//@   ensures [once]   result0 ==> tx != nil && !old(@select(@select(ghost(recv), ref(pool.received)), tx.Hash)) && !old(@select(@select(ghost(kvhas), ref(pool.executed)), bytes(tx.Hash)))
-//@   ensures [refuse] tx != nil && (old(@select(@select(ghost(recv), ref(pool.received)), tx.Hash)) || old(@select(@select(ghost(kvhas), ref(pool.executed)), bytes(tx.Hash)))) ==> !result0 && result1 == ErrExist && ghost(recv) == old(ghost(recv))
+//@   ensures [once]   result0 ==> tx != nil && !old(@select(@select(ghost(recv), ref(pool.received)), bytes(tx.Hash))) && !old(@select(@select(ghost(kvhas), ref(pool.executed)), bytes(tx.Hash)))
+//@   ensures [refuse] tx != nil && (old(@select(@select(ghost(recv), ref(pool.received)), bytes(tx.Hash))) || old(@select(@select(ghost(kvhas), ref(pool.executed)), bytes(tx.Hash)))) ==> !result0 && result1 == ErrExist && ghost(recv) == old(ghost(recv))
 //@   ensures [kv]     ghost(kvhas) == old(ghost(kvhas))
+//@   ensures [admit]  tx != nil && !old(@select(@select(ghost(recv), ref(pool.received)), bytes(tx.Hash))) && !old(@select(@select(ghost(kvhas), ref(pool.executed)), bytes(tx.Hash))) ==> result0 && @select(@select(ghost(recv), ref(pool.received)), bytes(tx.Hash))
+//@   ensures [keeps]  forall k Bytes :: old(@select(@select(ghost(recv), ref(pool.received)), k)) ==> @select(@select(ghost(recv), ref(pool.received)), k)
 //@   modifies ghost(recv)
 
 //@ func findTxInList
@@ -257,3 +262,24 @@ package service
 //@ func RefundManager.Add
 //@   option trusted
 //@   modifies ghost(stver)
+
+// Reorg (C17): the transactions of a removed block are taken out of the executed database and become pending
+// again (whatever was pending stays pending).
+//@ func ext_mysqlDeleteLogs
+//@   option trusted extern=com.tuntun.rangers/node/src/middleware/mysql.DeleteLogs
+//@   modifies nothing
+
+//@ func ext_lruRemove
+//@   option trusted extern=(*github.com/hashicorp/golang-lru.Cache).Remove
+//@   modifies nothing
+
+//@ func TxPool.UnMarkExecuted
+//@   property C17
+//@   requires pool != nil && block != nil && block.Header != nil && pool.received != nil && pool.evictedTxs != nil && typeid(pool.executed) != 0 && txPoolLogger != nil
+//@   requires [inputs] forall i int :: 0 <= i && i < len(block.Transactions) ==> block.Transactions[i] != nil
+//@   loop 0: invariant true
+//@   loop 1: invariant forall j int :: 0 <= j && j <= rangeidx() ==> @select(@select(ghost(recv), ref(pool.received)), bytes(block.Transactions[j].Hash))
+//@   loop 1: invariant forall j int :: 0 <= j && j <= rangeidx() ==> !@select(@select(ghost(kvhas), ref(pool.executed)), bytes(block.Transactions[j].Hash))
+//@   loop 1: invariant forall i int :: 0 <= i && i < len(block.Transactions) ==> block.Transactions[i] != nil
+//@   ensures [pending]  forall j int :: 0 <= j && j < len(block.Transactions) ==> @select(@select(ghost(recv), ref(pool.received)), bytes(block.Transactions[j].Hash))
+//@   ensures [notexec]  forall j int :: 0 <= j && j < len(block.Transactions) ==> !@select(@select(ghost(kvhas), ref(pool.executed)), bytes(block.Transactions[j].Hash))
